@@ -23,7 +23,7 @@ from elementpath.datatypes import AbstractDateTime, ArithmeticProxy, Duration, N
 from elementpath.xpath_nodes import XPathNode, ElementNode, DocumentNode
 
 from elementpath.exceptions import ElementPathTypeError
-from elementpath.helpers import node_position
+from elementpath.helpers import node_position, checked_integer
 from elementpath.xpath_context import XPathSchemaContext
 from elementpath.xpath_tokens import XPathToken, NameToken, VariableToken, \
     ContextItemToken, AsteriskToken, ParentShortcutToken
@@ -121,7 +121,7 @@ def evaluate__plus_operator(self: XPathToken, context: ta.ContextType = None) \
             return []
 
         try:
-            return op1 + op2  # type:ignore[operator, return-value]
+            return checked_integer(op1 + op2)  # type:ignore[operator, no-any-return]
         except (TypeError, OverflowError) as err:
             if isinstance(context, XPathSchemaContext):
                 return []
@@ -149,7 +149,7 @@ def evaluate__minus_operator(self: XPathToken, context: ta.ContextType = None) \
             return []
 
         try:
-            return op1 - op2  # type:ignore[operator, return-value]
+            return checked_integer(op1 - op2)  # type:ignore[operator, no-any-return]
         except (TypeError, OverflowError) as err:
             if isinstance(context, XPathSchemaContext):
                 return []
